@@ -25,7 +25,7 @@ Theorem App_is_C03_model :
   forall filt A e,
     serve_app filt A e = wsgi (cenv_of e) (ap_eh A) (program_of filt A e)
     /\ trace_app filt A e = Some (all_events (serve_app filt A e))
-    /\ count is_start (all_events (serve_app filt A e)) = 1
+    /\ count is_start (all_events (serve_app filt A e)) = (if passed (serve_app filt A e) then 0 else 1)
     /\ count is_close (all_events (serve_app filt A e)) <= 1
     /\ (Forall scalar (en_path e) -> forall ev, serve_app filt A e <> WsEscaped ev)
     /\ (forall ev w st b, serve_app filt A e = WsOk ev w st b ->
